@@ -39,9 +39,18 @@ inductive Item
   | tuple (fs : List PyVal)
 deriving Repr, DecidableEq
 
+/-- iterables that are not sequences: the item loop runs over them, but `len(schedule)` / `schedule[0]` of the order
+check do not work as for a list -/
+inductive NonSeq
+  | noLen        -- generator / iterator: `len(schedule)` raises TypeError (and the item loop has consumed it)
+  | keyed        -- dict: iterating yields the keys, `len` works, `schedule[0]` raises KeyError
+  | unordered    -- set / frozenset / dict view: `len` works, `schedule[0]` raises TypeError
+deriving Repr, DecidableEq
+
 inductive Schedule
   | nonIterable                -- `enumerate(schedule)` raises TypeError (None, int, …)
-  | items (l : List Item)
+  | items (l : List Item)      -- list / tuple / deque / str … (a sequence)
+  | nonSequence (k : NonSeq) (l : List Item)   -- an iterable yielding `l` that is not a sequence
 deriving Repr, DecidableEq
 
 /-- the well-formed item `(name, idx)` -/
@@ -167,6 +176,17 @@ def Err.toString : Err → String
 def validateSchedulesAux (T : Tables) (L : Lists) : List Schedule → Nat → Except Err Unit
   | [], _ => .ok ()
   | .nonIterable :: _, i => .error (.itemNoPos i)
+  | .nonSequence k its :: _, i =>
+    -- the item loop works on any iterable; the order check then calls `len(schedule)` and `schedule[0]`:
+    -- only ValueError is converted, TypeError / KeyError escape (open finding D18)
+    match validateItems T L its 0 with
+    | .error (_, .keyError) => .error (.escaped .keyError)
+    | .error (j, e) => .error (.item i j e)
+    | .ok _ =>
+      match k with
+      | .noLen => .error (.escaped .typeError)
+      | .keyed => if its.length < T.minLen then .error (.order i .tooShort) else .error (.escaped .keyError)
+      | .unordered => if its.length < T.minLen then .error (.order i .tooShort) else .error (.escaped .typeError)
   | .items its :: rest, i =>
     match validateItems T L its 0 with
     | .error (_, .keyError) => .error (.escaped .keyError)
@@ -418,6 +438,7 @@ def Item.pair? : Item → Option (String × Int)
 def Schedule.pairs? : Schedule → Option (List (String × Int))
   | .items its => its.mapM Item.pair?
   | .nonIterable => none
+  | .nonSequence _ _ => none
 
 /-- the `schedules == "all"` expansions -/
 def allSchedules (c : Cls) (nStates nPovms : Nat) : List Schedule :=
@@ -450,7 +471,7 @@ def tomoCtor (T : Tables) (c : Cls) (nStates nPovms : Nat) (a : SchedArg) : Exce
     | .error e => .error (.exp e)
     | .ok _ =>
       match ss.mapM Schedule.pairs? with
-      | none => .error .unmodelled      -- unreachable after a successful construction (QProps: `pairs_of_accepted`)
+      | none => .error .unmodelled      -- unreachable after a successful construction (QProps: `tomo_reject_kinds` shows `.unmodelled` and `.index` never result)
       | some ps =>
         match tomoValidate c.spec ps 0 with
         | .error e => .error e
@@ -492,11 +513,18 @@ def parseItem? (s : String) : Option Item :=
     | 'T' :: rest => ((String.ofList rest).splitOn ",").mapM parsePyVal? |>.map .tuple
     | _ => none
 
-/-- `!` | `-` (empty) | items joined by `;` -/
+def parseItems? (s : String) : Option (List Item) :=
+  if s = "-" then some [] else (s.splitOn ";").mapM parseItem?
+
+/-- `!` | `-` (empty) | items joined by `;` | `G:`/`D:`/`Z:` + items (generator / dict / set yielding these items) -/
 def parseSchedule? (s : String) : Option Schedule :=
   if s = "!" then some .nonIterable
-  else if s = "-" then some (.items [])
-  else (s.splitOn ";").mapM parseItem? |>.map .items
+  else match s.splitOn ":" with
+    | _ => 
+      if s.startsWith "G:" then (parseItems? (String.ofList (s.toList.drop 2))).map (.nonSequence .noLen)
+      else if s.startsWith "D:" then (parseItems? (String.ofList (s.toList.drop 2))).map (.nonSequence .keyed)
+      else if s.startsWith "Z:" then (parseItems? (String.ofList (s.toList.drop 2))).map (.nonSequence .unordered)
+      else (parseItems? s).map .items
 
 /-- `~` (no schedule) | schedules joined by `|` -/
 def parseSchedules? (s : String) : Option (List Schedule) :=
@@ -512,6 +540,9 @@ def showItem : Item → String
 
 def showSchedule : Schedule → String
   | .nonIterable => "!"
+  | .nonSequence k l =>
+    (match k with | .noLen => "G:" | .keyed => "D:" | .unordered => "Z:") ++
+      (if l.isEmpty then "-" else ";".intercalate (l.map showItem))
   | .items [] => "-"
   | .items l => ";".intercalate (l.map showItem)
 
